@@ -732,7 +732,9 @@ impl<const LEVELS: usize> OrderBook<LEVELS> {
     /// maintains the same id.
     ///
     /// If the price/vol are None then the original
-    /// price/vol are kept.
+    /// price/vol are kept. A new price that is not a
+    /// multiple of the tick-size is rejected and the
+    /// order is left unchanged.
     ///
     /// # Arguments
     ///
@@ -749,6 +751,13 @@ impl<const LEVELS: usize> OrderBook<LEVELS> {
         new_vol: Option<Price>,
     ) {
         let mut order_entry = self.orders[order_id];
+
+        // Prices off the tick-grid are rejected, as for new orders
+        if let Some(p) = new_price {
+            if p % self.tick_size != 0 {
+                return;
+            }
+        }
 
         if order_entry.order.status == Status::Active {
             match (new_price, new_vol) {
